@@ -140,3 +140,35 @@ func C11_ManyErrors() {
 	verif.Assert(left == 0, "no goroutine of the call is left running or blocked")
 	verif.Reach("returned")
 }
+
+// C11_DataWithEOF: the reader delivers its last bytes together with io.EOF
+// (as os.File never does but the io.Reader contract allows), after a first
+// read that ends before, inside or after a lexical failure; every input
+// class, under schedule exploration.
+func C11_DataWithEOF() {
+	var in c11Input
+	var first int
+	if verif.Tier() == 1 {
+		in = c11Inputs[verif.Choice("input", len(c11Inputs))]
+		first = []int{1, 7, 12, 20}[verif.Choice("first", 4)]
+	} else {
+		in = c11Inputs[[]int{0, 3, 5, 6}[verif.Choice("input", 4)]]
+		first = []int{7, 20}[verif.Choice("first", 2)]
+	}
+	script := []symio.Step{{N: first}, {N: 1000, Err: io.EOF}}
+	if verif.Tier() == 1 && verif.Choice("three", 2) == 1 {
+		script = []symio.Step{{N: first}, {N: 9}, {N: 1000, Err: io.EOF}}
+	}
+	f := &symio.File{Data: []byte(in.src), Script: script, FileName: "f"}
+	out, log := &symio.Writer{}, &symio.Writer{}
+	_, err := bcl.ParseFile(f, bcl.OptOutput(out), bcl.OptLogger(log))
+	left := verif.Quiesce()
+	verif.Reach("returned")
+	verif.Observe("closes", f.Closes)
+	verif.Observe("err", err)
+	verif.Assert(f.Closes == 1, "Close called exactly once")
+	verif.Assert(left == 0, "no goroutine of the call is left running or blocked")
+	if in.fail >= 0 {
+		verif.Assert(err != nil, "lexical failure reported")
+	}
+}
